@@ -30,6 +30,15 @@ pub fn samples_per_symbol(fs: u32) -> f32 {
     super::waveform::samples_per_symbol(fs)
 }
 
+/// Matched-filter taps of the FSK demodulator, `(mark, space)`, as `(re, im)` pairs
+pub fn matched_filter_taps(fs: u32) -> (Vec<(f32, f32)>, Vec<(f32, f32)>) {
+    let (mark, space) = super::waveform::matched_filter(fs);
+    (
+        mark.iter().map(|c| (c.re, c.im)).collect(),
+        space.iter().map(|c| (c.re, c.im)).collect(),
+    )
+}
+
 /// T1: one record per symbol seen by the squelch
 #[derive(Clone, Debug, PartialEq, Eq)]
 pub struct SquelchTap {
